@@ -139,7 +139,7 @@ def main():
     ap.add_argument('--replay', default=None)
     args = ap.parse_args()
     prop = args.prop
-    tier = os.environ.get('VERIF_TIER') or args.tier or 'quick'
+    tier = args.tier or os.environ.get('VERIF_TIER') or 'quick'
     seed = int(os.environ.get('VERIF_SEED', '0'))
     timer = common.Timer()
     mod = importlib.import_module('props.' + prop.lower())
